@@ -157,9 +157,15 @@ def run12(ck):
         asyncio.set_event_loop(loop)
         xknx = XKNX()
         conn = dmc.UDPDeviceManagementConnection("10.0.0.2", 3671, "10.0.0.1")
-        with patch.object(chm.logger, "exception", lambda *a, **k: fallback.append("cemi_handler")), \
+        async def feed():
+          # (inside a running loop, as in production: the management layer starts tasks for point-to-point frames addressed to this device)
+          with patch.object(chm.logger, "exception", lambda *a, **k: fallback.append("cemi_handler")), \
                 patch.object(dmc.logger, "exception", lambda *a, **k: fallback.append("devmgmt")):
-            for kind, mk, raw in ins:
+            for k_, (kind, mk, raw) in enumerate(ins):
+                if k_ % 2000 == 0:
+                    await asyncio.sleep(0)
+                    for tk in asyncio.all_tasks() - {asyncio.current_task()}:
+                        tk.cancel()
                 out, _f = parse(raw)
                 fallback.clear()
                 esc = ""
@@ -173,6 +179,11 @@ def run12(ck):
                 cases.append({"t": "parse", "b": list(raw), "out": out, "src": kind, "kind": mk})
                 while not xknx.telegrams.empty():
                     xknx.telegrams.get_nowait()
+            for tk in asyncio.all_tasks() - {asyncio.current_task()}:
+                tk.cancel()
+            await asyncio.sleep(0)
+
+        loop.run_until_complete(feed())
         loop.close()
         asyncio.set_event_loop(None)
     finally:
